@@ -346,7 +346,9 @@ def c14_compare(c, a, m):
     # call log (with arguments), outcome and value.  When the two sides disagree on whether the *generic* parser front end refuses the string
     # (a Parse error on one side only), that is C05's; the protocol on the implementation side is then judged by the oracle alone.
     pa, pm = trip(a), trip(m)
-    ea, em = pa[1].startswith('E Parse:'), pm[1].startswith('E Parse:')
+    # refused by the generic front end = a Parse error before the hook ran (no H: entry in the call log)
+    ea = pa[1].startswith('E Parse:') and 'H:' not in pa[0]
+    em = pm[1].startswith('E Parse:') and 'H:' not in pm[0]
     if ea != em: return 'mismatch'
     return (pa[0], vals(pa[1]), canon(pa[1]) == '!') == (pm[0], vals(pm[1]), canon(pm[1]) == '!')
 c14_compare.obs = lambda c, a: (trip(a)[0], vals(trip(a)[1]))
